@@ -51,6 +51,7 @@ pub struct Aggregate {
     pub violations: Vec<(u64, String, String, String)>, // index, class, detail, raw path
     pub killed: Vec<(u64, String)>,
     pub stopped_early: bool,
+    pub harness_errors: u64,
     pub vacuous_reasons: BTreeMap<String, u64>,
 }
 
@@ -185,6 +186,11 @@ pub fn run_workers(args: &CheckArgs) -> Aggregate {
                         }
                     };
                     agg.violations.push((idx, class, detail, path));
+                } else if let Some(rest) = line.strip_prefix("H ") {
+                    eprintln!("harness error: worker reports: case {rest}");
+                    agg.harness_errors += 1;
+                    w.current = None;
+                    w.done = true;
                 } else if line == "DONE" {
                     w.done = true;
                     w.current = None;
@@ -469,6 +475,10 @@ pub fn check(args: &CheckArgs) -> i32 {
             let _ = std::fs::write(&path, serde_json::to_string_pretty(&f).unwrap());
             agg.violations.push((index, class, detail, path));
         }
+    }
+
+    if agg.harness_errors > 0 {
+        harness_error = true;
     }
 
     // 3. Killed runs become violations with a regenerated case file.
